@@ -134,7 +134,7 @@ def gen_wf_dir(rng, n, every_sev=False):
     for _ in range(n):
         p = apel.gen_pel(rng, max_sections=rng.choice([0, 1, 3]))
         while True:
-            eid = rng.choice([rng.randrange(2 ** 32), rng.randrange(0x50000000, 0x50000100), rng.randrange(0, 0x2000)])
+            eid = rng.choice([rng.randrange(2 ** 32), rng.randrange(0x50000000, 0x50000100), rng.randrange(0, 0x2000), rng.randrange(0, 0x11), 0, 0xFFFFFFFF])
             if eid not in eids:
                 eids.add(eid)
                 break
